@@ -193,6 +193,31 @@ func TestVerif_C20(t *testing.T) {
 				}
 			}
 		}
+		// conservation oracle of the fetchers: a counters snapshot is written in one critical section, so
+		// assigned + available of a pool must equal the usable size of that pool in one of the round's
+		// configuration versions (or 0/0 while the pool does not exist), whatever handler runs meanwhile
+		allowedSums := map[string]map[[2]int64]bool{}
+		for _, v := range versions {
+			fa := allocator.New(func(string) {})
+			fa.SetPools(v)
+			for _, n := range []string{"pa", "pb", "pc", "pd", "pe", "qa"} {
+				ct := fa.CountersForPool(n)
+				if allowedSums[n] == nil {
+					allowedSums[n] = map[[2]int64]bool{{0, 0}: true}
+				}
+				allowedSums[n][[2]int64{ct.AssignedIPv4 + ct.AvailableIPv4, ct.AssignedIPv6 + ct.AvailableIPv6}] = true
+			}
+		}
+		var tornMu sync.Mutex
+		torn := map[string]string{}
+		// what the consumer of the counters callback would publish (the PoolStatusReconciler fetches when woken)
+		published := map[string]allocator.PoolCounters{}
+		publish := func(name string) {
+			ct := ctl.ips.CountersForPool(name)
+			tornMu.Lock()
+			published[name] = ct
+			tornMu.Unlock()
+		}
 		lis.PoolHandler(logNop(), versions[0])
 		for d := 0; d < ndrivers; d++ {
 			dr := r.Fork()
@@ -255,8 +280,13 @@ func TestVerif_C20(t *testing.T) {
 					default:
 					}
 					busy := atomic.LoadInt64(&inflight) > 0
-					ctr := ctl.ips.CountersForPool(names[i%len(names)])
-					_ = ctr.AssignedIPv4 + ctr.AvailableIPv4
+					pn := names[i%len(names)]
+					ctr := ctl.ips.CountersForPool(pn)
+					if sum := [2]int64{ctr.AssignedIPv4 + ctr.AvailableIPv4, ctr.AssignedIPv6 + ctr.AvailableIPv6}; !allowedSums[pn][sum] {
+						tornMu.Lock()
+						torn[pn] = fmt.Sprintf("%+v (assigned+available v4/v6 = %v, usable sizes of the pool over the configuration versions: %v)", ctr, sum, allowedSums[pn])
+						tornMu.Unlock()
+					}
 					atomic.AddInt64(&fetches, 1)
 					if busy {
 						atomic.AddInt64(&overlapped, 1)
@@ -277,7 +307,7 @@ func TestVerif_C20(t *testing.T) {
 				case <-stop:
 					return
 				case name := <-events:
-					_ = ctl.ips.CountersForPool(name)
+					publish(name)
 				}
 			}
 		}()
@@ -307,6 +337,24 @@ func TestVerif_C20(t *testing.T) {
 		default:
 		}
 		c.Eval()
+	drain:
+		for {
+			select {
+			case name := <-events:
+				publish(name)
+			default:
+				break drain
+			}
+		}
+		for _, pn := range vfSortedKeys(published) {
+			c.Count("published-counters-compared")
+			if fin := ctl.ips.CountersForPool(pn); fin != published[pn] {
+				c.Violation("consumer:published-counters-stale", fmt.Sprintf("after every notification was consumed the counters last fetched for pool %s are %+v but the allocator reports %+v: the last change was not followed by a notification", pn, published[pn], fin), nil)
+			}
+		}
+		for _, pn := range vfSortedKeys(torn) {
+			c.Violation("fetcher:counters-not-conserved", fmt.Sprintf("a concurrent CountersForPool(%s) returned %s: no serial order of the handlers produces such a snapshot", pn, torn[pn]), nil)
+		}
 		c.Count("rounds")
 		c.CountN("handler-calls", len(elog))
 		c.CountN("fetcher-calls", int(fetches))
